@@ -154,6 +154,7 @@ class Exec:
         self.summaries_used = []
         self.bodies = []
         self.lenient = lenient; self.subject = subject; self.target = target
+        self.subject_result = False; self.n_subjects = 0
         self.hits = []      # (conds, callee) of paths that reached a target call
         self.cut = 0        # paths abandoned (loop / too long)
         self.consts = set() # variant constants used
@@ -206,7 +207,13 @@ class Exec:
             rv = rv[len("no_retag "):]
         m = re.match(r"discriminant\((.*)\)$", rv)
         if m:
-            v = self.place(f, env, m.group(1))
+            inner = m.group(1)
+            pm = re.match(r"\(\((_\d+) as (\w+)\)\.(\d+): .*\)$", inner)
+            if pm:
+                base = self.place(f, env, pm.group(1))
+                v = base["err"] if (base.get("k") == "enum" and base.get("err") is not None and pm.group(2) == "Err") else OPAQUE("projection")
+            else:
+                v = self.place(f, env, inner)
             if v.get("k") == "enum" and v.get("fields") and not v.get("disc"):
                 return {"k": "variant_disc", "enum": v}
             d = disc_of(v)
@@ -230,6 +237,8 @@ class Exec:
         m = re.match(r"(?:copy |move )?\(\((_\d+) as (\w+)\)\.(\d+): .*\)$", rv)
         if m:
             base = self.place(f, env, m.group(1))
+            if base.get("k") == "enum" and base.get("err") is not None and m.group(2) == "Err":
+                return base["err"]
             if base.get("k") == "enum" and base.get("variant") is not None:
                 if base["variant"] != m.group(2):
                     raise WrongVariant()
@@ -330,12 +339,21 @@ class Exec:
             elif k == "call":
                 callee = blk.call["callee"]
                 if self.target and re.search(self.target, callee):
-                    self.hits.append((conds, callee))
+                    self.hits.append((conds, callee, env.get("__last_subject")))
                     continue
                 vals = [self.operand(f, env, a) for a in blk.call["args"]]
                 out = None
                 if self.subject and re.search(self.subject[0], callee):
-                    out = [([], {"k": "enum", "ty": "subject", "variant": None, "fields": [], "disc": self.subject[1]})]
+                    if self.subject_result:
+                        # Result<T, E>: symbolic Ok/Err tag and, for Err, a symbolic variant of E; fresh per call
+                        self.n_subjects += 1
+                        k_ = self.n_subjects
+                        val = {"k": "enum", "ty": "Result", "variant": None, "fields": [], "disc": "subj_tag_%d" % k_,
+                               "err": {"k": "enum", "ty": "E", "variant": None, "fields": [], "disc": "subj_%d" % k_}}
+                        env = dict(env); env["__last_subject"] = k_
+                        out = [([], val)]
+                    else:
+                        out = [([], {"k": "enum", "ty": "subject", "variant": None, "fields": [], "disc": self.subject[1]})]
                 m_eq = re.match(r"<(.*) as std::cmp::PartialEq>::(eq|ne)$", callee)
                 if out is None and m_eq and len(vals) == 2:
                     d0, d1 = disc_of(vals[0]), disc_of(vals[1])
